@@ -109,7 +109,85 @@ pub fn in_child<T: serde::Serialize + serde::de::DeserializeOwned>(
     serde_json::from_slice(&bytes).ok()
 }
 
+/// `--replay <file>`: re-execute a recorded violation without the explorer,
+/// printing what every step does. Exit code 1 if the violation recurs.
+fn replay_mode<M: Model + Clone>(spec: &Spec<M>, file: &str) -> i32 {
+    let bytes = match std::fs::read(file) {
+        Ok(b) => b,
+        Err(e) => {
+            eprintln!("cannot read {file}: {e}");
+            return 2;
+        }
+    };
+    let v: Violation = match serde_json::from_slice(&bytes) {
+        Ok(v) => v,
+        Err(e) => {
+            eprintln!("cannot parse {file}: {e}");
+            return 2;
+        }
+    };
+    let Some(cfg) = spec.configs.iter().find(|c| c.name == v.config) else {
+        eprintln!("unknown configuration {} (tier mismatch? try --tier thorough)", v.config);
+        return 2;
+    };
+    let root = scratch_root();
+    let _guard = ScratchGuard(root.clone());
+    let dir = root.join("replay");
+    let _ = std::fs::remove_dir_all(&dir);
+    std::fs::create_dir_all(&dir).unwrap();
+    std::env::set_current_dir(&dir).unwrap();
+    let shared = Shared::new();
+    let mut model = cfg.model.clone();
+    let mut w = match (cfg.build)() {
+        Ok(w) => w,
+        Err(e) => {
+            eprintln!("world build failed: {e}");
+            return 2;
+        }
+    };
+    let mut path = Vec::new();
+    let mut hit = false;
+    for (i, op) in v.ops.iter().enumerate() {
+        path.push(op.clone());
+        let r = std::panic::catch_unwind(std::panic::AssertUnwindSafe(|| {
+            let out = model.apply(&mut w, op);
+            let viol = model.check(&mut w, &path, &out, shared.header());
+            (out, viol)
+        }));
+        match r {
+            Ok((out, viol)) => {
+                println!("step {i}: {op}\n   ok={} err={:?} fatal={:?}\n   tasks={:?}", out.ok, out.err, out.fatal, out.tasks);
+                for (k, d) in viol {
+                    println!("   VIOLATION {k}: {d}");
+                    if format!("{}|{}", k, e1::normalize(&d)) == v.signature() {
+                        hit = true;
+                    }
+                }
+            }
+            Err(p) => {
+                println!("step {i}: {op}\n   PANIC {}", e1::panic_message(&p));
+                if v.kind == "panic" {
+                    hit = true;
+                }
+                break;
+            }
+        }
+    }
+    let _ = std::env::set_current_dir("/");
+    if hit {
+        println!("VIOLATION property={} replay={}", spec.property, file);
+        1
+    } else {
+        println!("recorded violation did not recur");
+        0
+    }
+}
+
 pub fn run<M: Model + Clone>(spec: Spec<M>, out: &mut Outcome) {
+    let args: Vec<String> = std::env::args().collect();
+    if let Some(file) = crate::report::arg_value(&args, "--replay") {
+        std::process::exit(replay_mode(&spec, &file));
+    }
     let root = scratch_root();
     let _guard = ScratchGuard(root.clone());
     let _ = std::fs::remove_dir_all(&root);
